@@ -13,9 +13,35 @@
     generated program + the independently parsed .p are validated by TLC: the file's data in file order is the
     emitted stream in emission order, every byte at its address/segment/granularity, file fully consumed,
     documented well-formedness.  CodeWriter_TraceRec (diagnostic): predicted record boundaries.
-Not covered: relocatable records (0x82-0x85); I/O errors.
+Output-context family (added after a seeded change that dropped `DontPrint = True` from RESTORE's segment branch:
+the data after SAVE / SEGMENT / RESTORE was appended to the record of the segment left behind).  The missing
+dimension was the set of statements that change the output context of the following data - segment, CPU/granularity,
+load address - WITHOUT being SEGMENT/ORG/CPU, and their look-alikes that must NOT change it:
+(M) CodeWriter_MC, second machine SpecFam (CodeWriter_MCFam.cfg, thorough CodeWriter_MCFam6.cfg): handlers written
+    like the code (they set ActPC/CPU/PCs and the DontPrint flag; WriteCode turns the flag into NewRecord) for SAVE,
+    RESTORE (segment and/or CPU come back), ORG to the current address, RORG (0, +1, -1), ALIGN reserving / filling,
+    the STRUCT..ENDSTRUCT block, BINCLUDE (chunked, BinChunk = 2), CPU as a statement (also the current CPU: back to
+    CODE), SEGMENT with the active segment; <= 5 (6) statements, BufSize 4, MaxRecLen 9: the six invariants + the new
+    OpenRecordTracksCounter (after every statement the open record's header names the current CPU / segment /
+    granularity and start + length = load address - also added to the first machine).  103,623 distinct states.
+    CodeWriter_MCFam_dev_restore.cfg = the handler without the flag: rejected by Conservation (model-level binding).
+(G) CodeWriter_GenFam (EXTENDS CodeWriter_Gen): (a) transition cover of the CONTEXT graph (VIEW = target, segment,
+    SAVE stack, open record dirty [thorough: + phase in force, SAVE depth 2, 5 dialects]): every family statement from
+    every context, followed by a probing data statement, the RESTOREs owed and END - 2,702 programs quick (122
+    contexts, dialects 8051/c25/pic/c30), ~58,700 thorough; (b) 60 (2,500) simulated programs mixing the family with
+    CodeWriter_Gen's boundary sizes (BINCLUDE of 255..1100 bytes, REPT 300, ALIGN 256 with fill).  Same verdict as
+    before: parsed image = image TLC predicts (addresses by the spec; bytes = pattern / fill value / included file).
+    ORG and ALIGN under PHASE use the execution address (implemented reading, see AddrBook.tla OrgWhilePhased);
+    BINCLUDE only in byte-granular segments (the manual counts it in bytes; other granularities: C11).
+(V) all family programs also go through CodeWriter_Trace / CodeWriter_TraceRec.
+Not covered: relocatable records (0x82-0x85); I/O errors; SAVE/RESTORE inside macro bodies or include files; nested
+STRUCTs and structure instantiation between data (C10's StructInst); RESTORE that brings back a segment the restored
+CPU does not have.
 Mutations tried (scratch copy of /repo, see DESIGN.md "Binding demonstrations"): dropping FlushBuffer in
 NewRecord, off-by-one in the 0xffff split test, `<` -> `<=` in the buffer test, RetractWords without the seek.
+Family (asmallg.c, `DontPrint = ...` removed): RESTORE segment branch (seeded; 12 violations), RORG (168 of 2,702
+cover programs differ), ALIGN one-argument form (56), BINCLUDE (144) - all caught; ENDSTRUCT (0: equivalent at the
+property level - the structure body never changed segment or address, the extra record is not needed).
 """
 import os
 
